@@ -9,7 +9,8 @@ ATOMS_FULL = ["a", "b", "0", "-", " ", "_",
               "[ab]", "[^a]", "[a-c]", "[a\\-c]", "[+*]", "[\\d_]", "[^a-c0]", "[.]", "[(|)]", "[a-]", "[\\]a]",
               "[^\\d]", "[^\\-a]", "[^\\]]", "[\\^a]", "[^\\w]", "[^b^]", "[a^]",
               "[\\d.]", "[\\w+]", "[.\\d]", "\\\\d", "[\\s ]", "[\\\\d]", "[^^a]", "[^a^]",
-              "[-a]", "[^-a]", "[^-a-c]", "[^a-]", "[^\\s]", "[^\\n]", "[\\n]"]
+              "[-a]", "[^-a]", "[^-a-c]", "[^a-]", "[^\\s]", "[^\\n]", "[\\n]",
+              "[[]", "[[a]", "[a[]", "[^[]", "[]a]", "[]]", "[^]a]", "[\\[a]", "[^\\t]"]
 ATOMS_SMALL = ["a", ".", "[ab]", "\\d", "\\+", "[^a]"]
 QUANTS = ["", "*", "+", "?", "{0}", "{1}", "{2}", "{0,1}", "{1,2}", "{2,2}", "{0,0}", "{1,1}", "{2,3}"]
 QUANTS_SMALL = ["", "*", "+", "?", "{2}", "{1,2}", "{0,1}"]
@@ -118,7 +119,7 @@ def has_zero_min(node):
     return any(isinstance(x, tuple) and has_zero_min(x) for x in node[1:])
 
 
-ALPHA12 = ["a", "b", "c", "0", "-", " ", "+", ".", "(", ")", "|", "\\", "_", "^", "]", "\n"]
+ALPHA12 = ["a", "b", "c", "0", "-", " ", "+", ".", "(", ")", "|", "\\", "_", "^", "]", "\n", "[", "n", "t"]
 ALPHA4 = ["a", "b", "0", "-"]
 
 
